@@ -260,6 +260,11 @@ func (w *kworld) doBatch(task string, n int, ring *gmsl.KeyRing, nfetch int) {
 			s = sim.Pick(t, w.origins)
 			if t.Chance(60) {
 				s = w.local
+			} else if len(w.notary) > 0 && t.Chance(60) {
+				// a notary is a homeserver too: a message signed by it, whose
+				// keys a perspective fetcher asks the notary itself for
+				s = sim.Pick(t, w.notary)
+				w.r.Probe("message_signed_by_a_notary")
 			}
 		}
 		m := w.newMessage(s)
@@ -679,7 +684,7 @@ func (w *kworld) checkFetcher(f *recFetcher, rec *callRec, sc *srcCall) {
 					if fb.kind == "error" || fb.kind == "none" || string(fb.server) != nm {
 						continue
 					}
-					if fb.good { // the first response naming the server decides
+					if fb.good || fb.goodForDirect { // the first response naming the server decides
 						use = fb
 					}
 					break
@@ -700,10 +705,10 @@ func (w *kworld) checkFetcher(f *recFetcher, rec *callRec, sc *srcCall) {
 		}
 	case "perspective":
 		w.client.mu.Lock()
-		hs := w.client.handed[fmt.Sprintf("%s|lookup#%d:%s", task, rec.n, f.via)]
+		hs := w.client.handed[fmt.Sprintf("%s|plookup#%d:%s", task, rec.n, f.via)]
 		if len(sc.req) == 1 {
 			for p := range sc.req {
-				hs = w.client.handed[fmt.Sprintf("%s|lookup#%d:%s:%s", task, rec.n, f.via, p.ServerName)]
+				hs = w.client.handed[fmt.Sprintf("%s|plookup#%d:%s:%s", task, rec.n, f.via, p.ServerName)]
 			}
 		}
 		w.client.mu.Unlock()
